@@ -105,7 +105,9 @@ func discharge(o *Obligation, dir string, timeoutMs int, thorough bool) {
 		// covers: a cheap reachability probe; "unknown" is acceptable, only "unsat" signals vacuity
 		r := runSolver(ctx, solvers[0], file, 700)
 		o.Status, o.Solver = r.status, r.solver
-		os.Remove(file)
+		if !keepAllSMT {
+			os.Remove(file)
+		}
 		return
 	}
 	r := runSolver(ctx, solvers[0], file, stage1)
@@ -113,7 +115,9 @@ func discharge(o *Obligation, dir string, timeoutMs int, thorough bool) {
 		o.Status, o.Solver, o.Model = r.status, r.solver, modelOf(r)
 		if !(thorough && r.status == "unsat" && o.Expect == "unsat") {
 			if r.status == "unsat" {
-				os.Remove(file)
+				if !keepAllSMT {
+					os.Remove(file)
+				}
 			}
 			return
 		}
@@ -171,7 +175,9 @@ func discharge(o *Obligation, dir string, timeoutMs int, thorough bool) {
 		}
 	}
 	if o.Status == "unsat" || (o.Status == "sat" && o.Expect == "sat") {
-		os.Remove(file)
+		if !keepAllSMT {
+			os.Remove(file)
+		}
 	}
 }
 
@@ -238,9 +244,19 @@ func dischargeBatch(group []*Obligation, dir string, timeoutMs int) {
 	}
 }
 
+var keepAllSMT = os.Getenv("GOVC_KEEP_ALL") != ""
+
 func dischargeAll(obls []*Obligation, dir string, timeoutMs, workers int, thorough bool) {
 	os.MkdirAll(dir, 0o755)
 	all0 := obls
+	if keepAllSMT {
+		for _, o := range obls {
+			if o.Script == "" && o.Prefix != "" {
+				o.Script = o.Prefix + o.Tail
+			}
+			os.WriteFile(filepath.Join(dir, sanitize(o.Name)+fmt.Sprintf("_p%d_%p.smt2", o.PathID, o)), []byte(o.Script), 0o644)
+		}
+	}
 	// phase 1: batches of goals with an identical prefix
 	groups := map[string][]*Obligation{}
 	var order []string
